@@ -246,9 +246,10 @@ func (r *Replayer) Run(v *Violation, file string, timeout time.Duration) (*Repla
 	cmd := exec.CommandContext(ctx, bin, "-test.run", "^TestVHReplay$", "-test.count=1", "-test.timeout", (timeout + 5*time.Second).String())
 	cmd.Dir = filepath.Join(r.repo, pkg)
 	cmd.Env = append(os.Environ(), "VERIF_REPLAY="+file, "VERIF_HARNESS="+v.Harness)
-	if len(v.Sched) > 0 && v.Kind == "assert" {
-		// found under a particular schedule: natively, stress it
-		cmd.Env = append(cmd.Env, "VERIF_REPEAT=20000")
+	if len(v.Sched) > 0 && (v.Kind == "assert" || v.Kind == "deadlock" || v.Kind == "crash" || v.Kind == "panic") {
+		// found under a particular schedule: natively, stress it (with schedule noise
+		// injected at the code's log records, see vjitter)
+		cmd.Env = append(cmd.Env, "VERIF_REPEAT=20000", "VERIF_JITTER=1")
 	}
 	out, _ := cmd.CombinedOutput()
 	res := &ReplayResult{Ran: true, Out: string(out)}
